@@ -12,7 +12,7 @@ FIX_TRUE = dict(FixValidateSame="TRUE", FixInsertEpoch="TRUE", FixSnapshot="TRUE
 
 # which deviations of the model constants still describe the code in /repo: when a defect is repaired by a
 # "fix:" commit the constant flips to TRUE here (see KNOWN_FINDINGS.json "fixed" entries)
-CODE_FIX = dict(FixValidateSame="TRUE", FixInsertEpoch="TRUE", FixSnapshot="FALSE", FixStraggler="FALSE")
+CODE_FIX = dict(FixValidateSame="TRUE", FixInsertEpoch="TRUE", FixSnapshot="FALSE", FixStraggler="TRUE")      # FixStraggler: fix F13 (2cc6ff2)
 
 for _kv in os.environ.get("SERVE_CODE_FIX", "").split(","):      # experimentation only (e.g. to re-find a repaired defect)
     if "=" in _kv:
